@@ -33,6 +33,7 @@ def _factory(kind, start, nthreads, ndraws):
         g._sequence = start
         s = linesched.LineSched({code}, chooser)
         linesched.virtualize_locks(g, s)
+        H.threading = linesched.ThreadingShim(s)      # locks created during the run are virtual too
         outs = {}
         for i in range(nthreads):
             def task(i=i):
@@ -40,7 +41,11 @@ def _factory(kind, start, nthreads, ndraws):
                 for _ in range(ndraws):
                     r.append(fn())
             s.add(f"T{i}", task)
-        return s, lambda: (dict(outs), list(s.events), s.deadlock)
+        def fin():
+            import threading as _real
+            H.threading = _real
+            return dict(outs), list(s.events), s.deadlock
+        return s, fin
     return make
 
 
